@@ -327,16 +327,30 @@ theorem C04_option_actions_total_counterexample : ¬ C04_option_actions_total_fu
   have := h "on" "off" { name := "flag" }
   exact absurd this (by decide +kernel)
 
-/-! ## 5. front-ends, from the library's in-memory value down -/
+/-! ## 5. front-ends, from the library's in-memory value down
+
+The models have two versions: `generateASTPreFix` (before the /repo fixes 70c59a6, 4e6f2a6, ca4fdd6 for
+OpenAPI and f0d68ac for JSON Schema) and `generateAST` (current).  The former defects stay checked
+statements about the pre-fix version; the current version is total on every value the libraries can
+produce. -/
 
 open Cog.Total.OpenApi in
 def C04_parse_total_openapi_full : Prop :=
   ∀ (pkg : String) (cs : Option (List (String × ORef))), isPanic (OpenApi.generateAST pkg cs) = false
 
 open Cog.Total.OpenApi in
+/-- the current OpenAPI generator does not panic on values without nil `*SchemaRef` entries in lists /
+    maps (`okComponents true`) — which is what kin-openapi's loader guarantees (it rejects `null` there:
+    replayed as corpus/openapi-null-list-element) -/
 theorem C04_parse_total_openapi_partial (pkg : String) (cs : Option (List (String × ORef)))
-    (h : ∀ l, cs = some l → okComponents l = true) : isPanic (OpenApi.generateAST pkg cs) = false :=
-  generateAST_noPanic pkg cs h
+    (h : ∀ l, cs = some l → okComponents true l = true) : isPanic (OpenApi.generateAST pkg cs) = false :=
+  generateASTv_noPanic true pkg cs h
+
+open Cog.Total.OpenApi in
+/-- the pre-fix generator, under the stronger pre-fix condition -/
+theorem C04_parse_total_openapi_prefix_partial (pkg : String) (cs : Option (List (String × ORef)))
+    (h : ∀ l, cs = some l → okComponents false l = true) : isPanic (OpenApi.generateASTPreFix pkg cs) = false :=
+  generateASTv_noPanic false pkg cs h
 
 namespace OApiW
 open Cog.Total.OpenApi
@@ -347,19 +361,31 @@ def enumWithoutType : List (String × ORef) := [("E", .resolved "" (schema { enu
 def arrayWithoutItems : List (String × ORef) := [("A", .resolved "" (schema { types := some ["array"] }))]
 /-- `A: {$ref: B}`, `B: {$ref: A}`: the loader leaves `Value` nil -/
 def unresolvedComponent : List (String × ORef) := [("A", .unresolved "#/components/schemas/B")]
+/-- a nil `*SchemaRef` inside `allOf` (not producible by the loader) -/
+def nilListElement : List (String × ORef) := [("A", .resolved "" (.mk { hasAllOf := true } [.nilPtr] [] [] [] .nilPtr .nilPtr))]
 end OApiW
 
 open Cog.Total.OpenApi in
+/-- over ALL in-memory values the statement is still false: a nil list element is dereferenced -/
 theorem C04_parse_total_openapi_counterexample : ¬ C04_parse_total_openapi_full := by
   intro h
-  have := h "pkg" (some OApiW.enumWithoutType)
+  have := h "pkg" (some OApiW.nilListElement)
   exact absurd this (by decide +kernel)
 
 open Cog.Total.OpenApi in
-theorem C04_parse_openapi_witnesses :
-    panicsAt (OpenApi.generateAST "pkg" (some OApiW.enumWithoutType)) "walkEnum: Type.Slice()[0]" = true ∧
-    panicsAt (OpenApi.generateAST "pkg" (some OApiW.arrayWithoutItems)) "walkSchemaRef: nil SchemaRef" = true ∧
-    panicsAt (OpenApi.generateAST "pkg" (some OApiW.unresolvedComponent)) "schemaComments: nil Schema" = true := by
+/-- the three former defects: the pre-fix generator panics at the recorded sites … -/
+theorem C04_parse_openapi_prefix_witnesses :
+    panicsAt (OpenApi.generateASTPreFix "pkg" (some OApiW.enumWithoutType)) "walkEnum: Type.Slice()[0]" = true ∧
+    panicsAt (OpenApi.generateASTPreFix "pkg" (some OApiW.arrayWithoutItems)) "walkSchemaRef: nil SchemaRef" = true ∧
+    panicsAt (OpenApi.generateASTPreFix "pkg" (some OApiW.unresolvedComponent)) "schemaComments: nil Schema" = true := by
+  refine ⟨?_, ?_, ?_⟩ <;> decide +kernel
+
+open Cog.Total.OpenApi in
+/-- … the current one returns an error (enum, array) or goes on (the unresolved alias is kept as a reference) -/
+theorem C04_parse_openapi_fixed :
+    isPanic (OpenApi.generateAST "pkg" (some OApiW.enumWithoutType)) = false ∧
+    isPanic (OpenApi.generateAST "pkg" (some OApiW.arrayWithoutItems)) = false ∧
+    isPanic (OpenApi.generateAST "pkg" (some OApiW.unresolvedComponent)) = false := by
   refine ⟨?_, ?_, ?_⟩ <;> decide +kernel
 
 open Cog.Total.JsonSchema in
@@ -368,36 +394,43 @@ def C04_parse_total_jsonschema_full : Prop :=
     isPanic (JsonSchema.generateAST pkg defs fuel root) = false
 
 open Cog.Total.JsonSchema in
+/-- the current JSON Schema generator does not panic on values whose `AdditionalProperties` is
+    nil | bool | *Schema and whose `Constant` is nil or non-empty (`okJ true`): the library's invariants -/
 theorem C04_parse_total_jsonschema_partial (pkg : String) (defs : List (String × JSchema)) (fuel : Nat)
-    (root : JSchema) (hd : okDefs defs = true) (hr : okJ root = true) :
+    (root : JSchema) (hd : okDefs true defs = true) (hr : okJ true root = true) :
     isPanic (JsonSchema.generateAST pkg defs fuel root) = false :=
-  generateAST_noPanic pkg defs fuel root hd hr
+  generateASTv_noPanic true pkg defs fuel root hd hr
 
 namespace JW
 open Cog.Total.JsonSchema
 def leaf (t : String) : JSchema := .mk { types := [t] } [] [] [] [] .none .none .none
 /-- draft-07 `{ "type": "array", "items": [ {"type":"string"}, {"type":"integer"} ] }` -/
 def tupleItems : JSchema := .mk { types := ["array"] } [] [] [] [] .none (.tuple [leaf "string", leaf "integer"]) .none
+/-- an `AdditionalProperties` that is neither nil, bool nor *Schema (not producible by the library) -/
+def otherAddl : JSchema := .mk { types := ["object"] } [] [] [] [] .other .none .none
 end JW
 
 open Cog.Total.JsonSchema in
 theorem C04_parse_total_jsonschema_counterexample : ¬ C04_parse_total_jsonschema_full := by
   intro h
-  have := h "pkg" [] 10 JW.tupleItems
+  have := h "pkg" [] 10 JW.otherAddl
   exact absurd this (by decide +kernel)
 
 open Cog.Total.JsonSchema in
-theorem C04_parse_jsonschema_witness :
-    panicsAt (JsonSchema.generateAST "pkg" [] 10 JW.tupleItems) "walkList: Items.(*Schema)" = true := by decide +kernel
+/-- the former defect: tuple-form `items` made the pre-fix generator panic; it is an error now -/
+theorem C04_parse_jsonschema_prefix_witness :
+    panicsAt (JsonSchema.generateASTPreFix "pkg" [] 10 JW.tupleItems) "walkList: Items.(*Schema)" = true ∧
+    isPanic (JsonSchema.generateAST "pkg" [] 10 JW.tupleItems) = false := by
+  constructor <;> decide +kernel
 
 /-- what the front-ends return is `wfIR` (so `wfIR` is exactly their guarantee, and the passes'
     theorems above apply to "IRs reachable from schemas") -/
 theorem C04_parse_wf_openapi (pkg : String) (cs : Option (List (String × OpenApi.ORef))) (s : Schema)
-    (h : OpenApi.generateAST pkg cs = .ok s) : wfIR [s] = true := OpenApi.generateAST_wf pkg cs s h
+    (h : OpenApi.generateAST pkg cs = .ok s) : wfIR [s] = true := OpenApi.generateASTv_wf true pkg cs s h
 
 theorem C04_parse_wf_jsonschema (pkg : String) (defs : List (String × JsonSchema.JSchema)) (fuel : Nat)
     (root : JsonSchema.JSchema) (s : Schema) (h : JsonSchema.generateAST pkg defs fuel root = .ok s) :
-    wfIR [s] = true := JsonSchema.generateAST_wf pkg defs fuel root s h
+    wfIR [s] = true := JsonSchema.generateASTv_wf true pkg defs fuel root s h
 
 /-- non-vacuity: a value on which the OpenAPI generator succeeds -/
 example : ∃ s, OpenApi.generateAST "pkg" (some [("S", .resolved "" (OApiW.schema { types := some ["string"] }))]) = .ok s :=
